@@ -4,7 +4,7 @@
    reference: Spec/RefExpand.v; grammar: Model/EngineDomain.v (in_grammar17, wf_assign17). *)
 From Coq Require Import String List Bool.
 From KV Require Import Lib.Str Lib.StrOps Lib.ODict Gen.Tags Gen.Pipeline Model.Engine Model.EngineSM Model.EngineDomain Spec.RefExpand
-                       Proofs.EngineStr Proofs.EngineC17 Proofs.EnginePipe Proofs.EngineNI.
+                       Proofs.EngineStr Proofs.EngineC17 Proofs.EngineFor Proofs.EnginePipe Proofs.EngineNI.
 Import ListNotations.
 Open Scope string_scope.
 Open Scope list_scope.
@@ -27,24 +27,30 @@ Theorem C17_if : forall (a : assign) dflts b elifs els rest,
 Proof. exact scan_cond. Qed.
 Print Assumptions C17_if.
 
-(* FULL STATEMENT (not proved in general):
-     forall a h body items, item_ok (For h body) = true -> for_items (hdr_value a h) = Some items -> items <> [] ->
-       innerexpand_for_loop (map (ref_line a) body) (Some (hdr_value a h)) = Some (ref_for items (map (subst a) body))
-   i.e. the FOR loop proper (first/last/each/index/letter substitutions by str.replace on the body lines) equals the
-   reference for ALL bodies and item lists.  Missing: the lemma that str.replace of <<<EACH>>> etc. on a rendered line acts
-   segment-wise, and the invariant of the two nested loops.  What IS proved: the FOR phase around the loop -- block
-   recognition by PairExpander, the flow of the list/count from the (substituted) header into the loop, accumulation of the
-   body, the output position -- for every FOR block whose loop result was checked on the instance (item_wf evaluates
-   innerexpand_for_loop = ref_for by computation; the harness evaluates it on every generated case). *)
-Theorem C17_for_partial : forall (a : assign) dflts h body r p,
-  item_wf a dflts (For h body) = true ->
+(* FOR, the loop proper: for EVERY body (lines of the segment syntax, after the user-tag phase) and EVERY list / count, the
+   engine's two nested loops with their FIRST / LAST / EACH / each / NUM / ALPH substitutions by str.replace produce exactly the
+   reference: the first FIRST line (wherever it stands in the body, FIRST := first item) before everything, then for each item
+   in order the ordinary lines with EACH / each / NUM / ALPH := item / small-first item / index / letter, then the first LAST
+   line (LAST := last item); further FIRST / LAST lines are dropped.  [good_line]: the line is in the segment syntax, the
+   engine's substring tests for FIRST / LAST agree with its segments, no line carries both.  A count n >= 1 stands for the
+   items _0_ ... _(n-1)_ (the engine goes through the text "_0_,_1_,...," and back). *)
+Theorem C17_for : forall v L items,
+  no_lg v = true -> Forall good_line L -> for_items v = Some items -> items <> [] ->
+  innerexpand_for_loop (map render_line L) (Some v) = Some (ref_for items L).
+Proof. exact for_loop_is_ref. Qed.
+Print Assumptions C17_for.
+
+(* the FOR phase around the loop: block recognition by PairExpander, the flow of the list / count from the (substituted)
+   header into the loop, accumulation of the body, the output position, for every FOR block of the grammar *)
+Theorem C17_for_phase : forall (a : assign) dflts, assign_ok a = true -> forall h body r p,
+  item_ok (For h body) = true -> item_wf a dflts (For h body) = true ->
   pair_go TAG_FOR_BEGIN TAG_FOR_END innerexpand_for_loop false [] p (ut_item a (For h body) ++ r)
   = match ref_item a (For h body) with
     | Some out => option_map (app out) (pair_go TAG_FOR_BEGIN TAG_FOR_END innerexpand_for_loop false [] (Some (hdr_value a h)) r)
     | None => None
     end.
 Proof. exact pg_for. Qed.
-Print Assumptions C17_for_partial.
+Print Assumptions C17_for_phase.
 
 (* The whole pipeline of smgen.Generate on a template file (phases and expander stages in the order the translator read
    from the source: load with first filtering and blank-line filter, the 15 expander stages, user tags, FOR, write with the
@@ -103,10 +109,13 @@ Example C17_if_nonvacuous :
 Proof. vm_compute. reflexivity. Qed.
 Print Assumptions C17_if_nonvacuous.
 
-Example C17_for_partial_nonvacuous :
+Example C17_for_nonvacuous :
+  (* a body with LAST before FIRST, two FIRST lines, a user tag; a count given by a user tag *)
+  item_ok (For (HTag "N" (Some "2")) [[Lit "z "; Tag "LAST" None]; [Lit "n"; Tag "EACH" None; Tag "NUM" None; Tag "ALPH" None; Lit " "; Tag "Verbose" None]; [Tag "FIRST" None; Lit " a"]; [Lit "b "; Tag "FIRST" None]]) = true /\
+  item_wf ex_a [] (For (HTag "N" (Some "2")) [[Lit "z "; Tag "LAST" None]; [Lit "n"; Tag "EACH" None; Tag "NUM" None; Tag "ALPH" None; Lit " "; Tag "Verbose" None]; [Tag "FIRST" None; Lit " a"]; [Lit "b "; Tag "FIRST" None]]) = true /\
   item_wf ex_a [] (For (HTag "N" (Some "2")) [[Lit "n"; Tag "EACH" None]; [Tag "FIRST" None]]) = true.
-Proof. vm_compute. reflexivity. Qed.
-Print Assumptions C17_for_partial_nonvacuous.
+Proof. split; [|split]; vm_compute; reflexivity. Qed.
+Print Assumptions C17_for_nonvacuous.
 
 Definition ex_a' : assign := [("Verbose", "1"); ("Beta", ""); ("Gamma", "G"); ("N", "3")].
 Example C17_noninterference_nonvacuous :
